@@ -17,7 +17,7 @@ let rest s = String.sub s 1 (String.length s - 1)
 
 let bind_serial = ref 0
 let hkind_of = function
-  | "k" -> HKey | "m" -> HMouse | "e" -> HExpose | "f" -> HFocus | "g" -> HGeom
+  | "k" -> HKey | "m" -> HMouse | "e" -> HExpose | "f" -> HFocus | "g" -> HGeom | "d" -> HDestroy
   | k -> failwith ("handler kind " ^ k)
 
 let rec parse_op (s : string) : op =
